@@ -299,6 +299,8 @@ func checkC14(P *Program, r *Result, tier string) {
 
 	// ---------- POOL-OWNERSHIP ----------
 	ownerGuardRules(P, r, "POOL-OWNERSHIP")
+	// values handed to the caller do not alias pooled buffers of the instance that produced them
+	copyRules(P, r, "POOL-OWNERSHIP", []*ssa.Function{P.Func(relTT, "ReadString2BLen"), P.Method(relThrift, "BinaryProtocol", "ReadString"), P.Method(relThrift, "BinaryProtocol", "ReadBinary"), P.Method(relThrift, "BufferReader", "ReadString"), P.Method(relThrift, "BufferReader", "ReadBinary")})
 
 	// ---------- READONLY ----------
 	ro := 0
